@@ -234,8 +234,16 @@ class IndexClient(PathClient):
                 s = s.set(('len', ts), len(value.elts))
         return s
 
+    watch = None          # (Func, parameter index): record the proven minimal length of that argument at every call
+
     def on_call(self, it, s, call):
         fn = call.func
+        if self.watch is not None:
+            tgt = self.p.resolve_call(self.f, call)
+            if isinstance(tgt, list) and self.watch[0] in tgt:
+                ix = self.watch[1]
+                n = self.min_len(s, src_of(call.args[ix])) if ix < len(call.args) and len(tgt) == 1 else 0
+                self.watch_min = n if self.watch_min is None else min(self.watch_min, n)
         if isinstance(fn, ast.Attribute) and fn.attr in ('append', 'insert', 'add'):
             X = src_of(fn.value)
             s = s.set(('len', X), min(4, self.min_len(s, X) + 1))
@@ -330,6 +338,35 @@ class IndexClient(PathClient):
         return s
 
 
+def _entry_len(p, f, pname):
+    """minimal length of parameter `pname` that every call site of f establishes for its argument (0 when unknown)"""
+    if pname not in f.params or f.cls is not None:
+        return 0
+    ix = f.params.index(pname)
+    sites = callgraph.get(p).callers_of(f)
+    if not sites:
+        return 0
+    best = None
+    for caller, call in sites:
+        c = IndexClient(p, caller)
+        c.watch = (f, ix)
+        c.watch_min = None
+        if ix < len(call.args):
+            words = {src_of(call.args[ix])}
+            a = call.args[ix]
+            if isinstance(a, ast.Name) and a.id in c.defs and isinstance(c.defs[a.id], ast.Subscript):
+                words.add(src_of(c.defs[a.id].value))
+            c.relevant += [re.compile(r'(?<![\w.])%s(?![\w])' % re.escape(w)) for w in words]
+        try:
+            explore(p, caller, c)
+        except AnalysisError:
+            return 0
+        if c.watch_min is None:
+            return 0
+        best = c.watch_min if best is None else min(best, c.watch_min)
+    return best or 0
+
+
 @rule('EXC-INDEX', 'N', 'constant-index subscripts and pop() on strings / variable-length lists are dominated by a non-emptiness fact')
 def exc_index(p, res):
     n_fixed = n_rev = 0
@@ -346,6 +383,22 @@ def exc_index(p, res):
             explore(p, f, c)
         except AnalysisError as e:
             raise AnalysisError('EXC-INDEX: %s: %s' % (f.short, e))
+        # sites on a parameter that fail locally: assume what every call site establishes about the argument, and look again
+        failing = {src_of(rec['recv']) for rec in c.sites.values() if not rec['ok'] and isinstance(rec['recv'], ast.Name) and src_of(rec['recv']) in f.params}
+        if failing:
+            from ..absint import State
+            init = {}
+            for pn in failing:
+                k = _entry_len(p, f, pn)
+                if k:
+                    init[('len', pn)] = k
+            if init:
+                c2 = IndexClient(p, f)
+                explore(p, f, c2, init=State(init))
+                for key, rec in c2.sites.items():
+                    if rec['ok'] and key in c.sites and not c.sites[key]['ok']:
+                        c.sites[key]['ok'] = True
+                        c.sites[key]['construct_note'] = ' (every call site passes at least %s element(s))' % init.get(('len', src_of(rec['recv'])))
         for key, rec in sorted(c.sites.items(), key=lambda kv: kv[0][1]):
             construct = rec['construct']
             if rec['ok']:
